@@ -2,6 +2,7 @@ package routingcheck
 
 import (
 	"context"
+	"errors"
 	"sync"
 
 	"github.com/emersion/go-message/textproto"
@@ -115,3 +116,30 @@ func (d *RecDelivery) State() string {
 	}
 	return "mixed"
 }
+
+// ScriptTable is a module.Table for source_in / destination_in whose lookups
+// fail for chosen keys (a transient table error) and otherwise answer from a
+// fixed key set.
+type ScriptTable struct {
+	name  string
+	keys  map[string]bool
+	fail  map[string]bool
+	Calls int
+}
+
+func (t *ScriptTable) Init(*config.Map) error { return nil }
+func (t *ScriptTable) Name() string           { return "verif_table" }
+func (t *ScriptTable) InstanceName() string   { return t.name }
+
+func (t *ScriptTable) Lookup(ctx context.Context, key string) (string, bool, error) {
+	t.Calls++
+	if t.fail[key] {
+		return "", false, errScripted
+	}
+	if t.keys[key] {
+		return "1", true, nil
+	}
+	return "", false, nil
+}
+
+var errScripted = errors.New("verif: scripted table lookup failure")
